@@ -105,7 +105,11 @@ def main():
     prop, tier = a.prop, ('thorough' if a.tier == 'thorough' else 'quick')
     seed = int(os.environ.get('VERIF_SEED', '0') or 0)
     t_start = time.time()
-    work = os.path.join(VERIF, '.work', prop)
+    # one scratch directory per run (two checks of the same property may run side by side); removed at exit unless VERIF_KEEP_WORK is set
+    work = os.path.join(VERIF, '.work', f'{prop}-{os.getpid()}')
+    if not os.environ.get('VERIF_KEEP_WORK'):
+        import atexit
+        atexit.register(lambda: shutil.rmtree(work, ignore_errors=True))
     shutil.rmtree(work, ignore_errors=True); os.makedirs(work)
     os.makedirs(os.path.join(VERIF, 'evidence'), exist_ok=True); os.makedirs(os.path.join(VERIF, 'replays'), exist_ok=True)
     from pyvc import solve
